@@ -142,6 +142,8 @@ public:
         {
             _settings._dim.y = _info._height;
         }
+
+        detail::check_read_region( _settings, _info._width, _info._height );
     }
 
     /// Read image header.
